@@ -1,1 +1,70 @@
-//! Stub models (each is part of the claim).
+//! Stub models (each is part of the claim; listed in the evidence of every family using them).
+//!
+//! S-ORIENT: `robust::orient2d` (Shewchuk's adaptive predicate, third-party crate, not part of
+//! /repo) is replaced under Kani by an exact model.  The real adaptive routine produces a > 6 GB
+//! CNF for a 16-bit symbolic window; the model evaluates the same determinant exactly.
+//! The model *asserts* its own preconditions, so it is checked on every call that geo passes it
+//! only values of the declared kind (input coordinates: integral multiples of SCALE within the
+//! declared magnitude).  Native replay does not apply stubs: the real `robust` crate runs.
+
+/// 1/ulp of the frame the harness works in (a power of two); every coordinate handed to the
+/// predicate must be an integral multiple of 1/SCALE_INV.  1.0 for integer-valued grids.
+pub static mut SCALE_INV: f64 = 1.0;
+/// magnitude bound on |coordinate * SCALE_INV|
+pub static mut BOUND: f64 = 1024.0;
+
+#[inline]
+fn to_int(v: f64) -> i128 {
+    let (k, b) = unsafe { (SCALE_INV, BOUND) };
+    let t = v * k; // exact: k is a power of two and no overflow inside the bound
+    assert!(t >= -b && t <= b, "S-ORIENT: geo passed a coordinate outside the declared magnitude bound to robust::orient2d");
+    let n = t as i128;
+    assert!((n as f64) == t, "S-ORIENT: geo passed a non-grid (computed) coordinate to robust::orient2d");
+    n
+}
+
+/// exact sign-carrying value of the determinant (pa - pc) x (pb - pc), same convention as
+/// `robust::orient2d`: > 0 iff pa, pb, pc are counter-clockwise
+pub fn orient2d_exact<T: Into<f64>>(pa: robust::Coord<T>, pb: robust::Coord<T>, pc: robust::Coord<T>) -> f64 {
+    let (ax, ay) = (to_int(pa.x.into()), to_int(pa.y.into()));
+    let (bx, by) = (to_int(pb.x.into()), to_int(pb.y.into()));
+    let (cx, cy) = (to_int(pc.x.into()), to_int(pc.y.into()));
+    let det = (ax - cx) * (by - cy) - (ay - cy) * (bx - cx);
+    if det > 0 {
+        1.0
+    } else if det < 0 {
+        -1.0
+    } else {
+        0.0
+    }
+}
+
+/// cheaper variant for small integer grids (|v| <= 2^10): i32 arithmetic
+pub fn orient2d_small<T: Into<f64>>(pa: robust::Coord<T>, pb: robust::Coord<T>, pc: robust::Coord<T>) -> f64 {
+    let cv = |v: f64| -> i32 {
+        assert!(v >= -1024.0 && v <= 1024.0, "S-ORIENT: geo passed a coordinate outside the declared magnitude bound to robust::orient2d");
+        let n = v as i32;
+        assert!((n as f64) == v, "S-ORIENT: geo passed a non-grid (computed) coordinate to robust::orient2d");
+        n
+    };
+    let (ax, ay) = (cv(pa.x.into()), cv(pa.y.into()));
+    let (bx, by) = (cv(pb.x.into()), cv(pb.y.into()));
+    let (cx, cy) = (cv(pc.x.into()), cv(pc.y.into()));
+    let det = (ax - cx) * (by - cy) - (ay - cy) * (bx - cx);
+    if det > 0 {
+        1.0
+    } else if det < 0 {
+        -1.0
+    } else {
+        0.0
+    }
+}
+
+/// S-HYPOT: libm hypot is an unsupported foreign function in Kani; sqrt is modelled exactly
+/// (correctly rounded).  May differ from libm by an ulp: downstream assertions carry tolerance.
+pub fn hypot_f32(x: f32, y: f32) -> f32 {
+    (x * x + y * y).sqrt()
+}
+pub fn hypot_f64(x: f64, y: f64) -> f64 {
+    (x * x + y * y).sqrt()
+}
